@@ -293,6 +293,15 @@ def conclude(mod, prop, tier, seed, results, wall, write_evidence=True):
 
     conclusive = verdicts['held'] + verdicts['violated']
     floors = getattr(mod, 'FLOORS', {}).get(tier, {})
+    # measured floors (tools/floors.py --write): one third of the minimum the unchanged tree produced over the swept seeds
+    fj = os.path.join(os.path.dirname(os.path.abspath(__file__)), 'floors.json')
+    if os.path.exists(fj):
+        try:
+            floors = json.load(open(fj)).get(prop, {}).get(tier) or floors
+        except ValueError:
+            pass
+    if os.environ.get('VERIF_NO_FLOORS'):
+        floors = {}         # used only by tools/floors.py while it measures
     short = []
     if conclusive < floors.get('conclusive', 1):
         short.append('conclusive=%d<%d' % (conclusive, floors.get('conclusive', 1)))
